@@ -226,6 +226,8 @@ Definition c11_conservation_stmt : Prop :=
   forall u w ops, total_inj u -> WInv u w -> fits w -> Forall rop_ok ops ->
     let c := fold_left (record u) ops cmdbuf_new in
     let '(wr, c', spawned, dropped, p) := cm_run_on u w c in
+    (* the id space is not exhausted by the replay *)
+    fits wr ->
     (* whether or not a command panics: nothing is lost and nothing is duplicated *)
     Permutation (stored w ++ concat (map rop_items ops)) (stored wr ++ dropped ++ cm_live_values c').
 
